@@ -247,7 +247,7 @@ def riscv_load_snapshot(sim):
     return s
 
 
-def h_reload_riscv(e, ia, ib, mode, cachecfg, observe=False):
+def h_reload_riscv(e, ia, ib, mode, cachecfg, observe=False, again=False):
     from symx.state import cache_options
     from architecture_simulator.simulation.riscv_simulation import RiscvSimulation
 
@@ -278,6 +278,10 @@ def h_reload_riscv(e, ia, ib, mode, cachecfg, observe=False):
 
     s1 = mk()
     look(s1)
+    if again:
+        # three loads: the text loaded last was already loaded once before the other one
+        _load(s1, B)
+        look(s1)
     x0 = _load(s1, A)
     look(s1)
     x1 = _load(s1, B)
@@ -310,11 +314,13 @@ def h_reload_riscv(e, ia, ib, mode, cachecfg, observe=False):
         e.claim("final-after-reload==fresh:" + k, F1[k] == F2[k], {"reloaded": repr(F1[k])[:300], "fresh": repr(F2[k])[:300]})
 
 
-def h_reload_toy(e, ia, ib):
+def h_reload_toy(e, ia, ib, again=False):
     from architecture_simulator.simulation.toy_simulation import ToySimulation
 
     A, B = TOY_TEXTS[ia], TOY_TEXTS[ib]
     s1 = ToySimulation()
+    if again:
+        _load(s1, B)
     _load(s1, A)
     x1 = _load(s1, B)
     s2 = ToySimulation()
@@ -404,6 +410,17 @@ def jobs(tier, seed):
     for ia in range(len(TOY_TEXTS)):
         for ib in range(len(TOY_TEXTS)):
             out.append({"label": "toyreload-%d-%d" % (ia, ib), "harness": "reload_toy", "args": {"ia": ia, "ib": ib}, "cost": 1})
+    # histories of three loads (B, A, B): the text loaded last had been loaded before
+    for ia in range(len(RISCV_TEXTS)):
+        for ib in range(len(RISCV_TEXTS)):
+            if ia == ib:
+                continue
+            ci = (ia + ib) % 3
+            out.append({"label": "reload3-%d-%d-c%d" % (ia, ib, ci), "harness": "reload_riscv", "args": {"ia": ia, "ib": ib, "mode": MODES[(ia + ib) % 2], "cachecfg": cfgs[ci], "observe": (ia + ib) % 4 == 0, "again": True}, "cost": 1})
+    for ia in range(len(TOY_TEXTS)):
+        for ib in range(len(TOY_TEXTS)):
+            if ia != ib:
+                out.append({"label": "toyreload3-%d-%d" % (ia, ib), "harness": "reload_toy", "args": {"ia": ia, "ib": ib, "again": True}, "cost": 1})
     return out
 
 
